@@ -90,6 +90,8 @@ Commit ==
                   /\ Chk("C04", "start-op-above-all-applied", d.startOp = m.startOp)
                   /\ Chk("C04", "deps-are-heads-plus-own-previous", S(d.deps) = m.deps)
                   /\ Chk("C04", "op-count", d.nops = E.pending)
+                  /\ Chk("C29", "isolated-change-depends-only-on-the-isolation-heads",
+                         iso # <<>> => S(d.deps) = iso[1])
                   /\ Chk("C38", "fresh-actor-seq",
                          \A x \in A \cup Qp : ~(chg[x].actor = d.actor /\ chg[x].seq = d.seq))
                   /\ Chk("C10", "hash-is-new", h \notin DOMAIN chg)
@@ -99,23 +101,30 @@ Commit ==
                   /\ Adopt(r)
                   /\ UNCHANGED actor
 
+(* one call per change, stopping at the first failure; preA/preQ = the state entering the last call *)
 RECURSIVE DeliverEach(_, _, _, _)
 DeliverEach(c, A, Q, B) ==
-  IF B = <<>> THEN [res |-> "ok", applied |-> A, queue |-> Q]
+  IF B = <<>> THEN [res |-> "ok", applied |-> A, queue |-> Q, preA |-> A, preQ |-> Q]
   ELSE LET one == DeliverResult(c, A, Q, <<Head(B)>>)
-       IN  IF one.res = "err" THEN one ELSE DeliverEach(c, one.applied, one.queue, Tail(B))
+       IN  IF one.res = "err" THEN [res |-> "err", applied |-> one.applied, queue |-> one.queue, preA |-> A, preQ |-> Q]
+           ELSE DeliverEach(c, one.applied, one.queue, Tail(B))
 
-ResClass(s) == IF s = "ok" THEN "ok" ELSE IF SubSeq(s, 1, 4) = "err:" THEN "err" ELSE "panic"
+ResClass(s) == IF s = "ok" THEN "ok" ELSE IF Len(s) >= 4 /\ SubSeq(s, 1, 4) = "err:" THEN "err" ELSE "panic"
 
 Deliver ==
   /\ IsEv("deliver")
   /\ LET r == E.r
          d == IF E.via = "each" THEN DeliverEach(chg, applied[r], queue[r], E.batch)
-              ELSE DeliverResult(chg, applied[r], queue[r], E.batch)
+              ELSE DeliverResult(chg, applied[r], queue[r], E.batch) @@ [preA |-> applied[r], preQ |-> queue[r]]
      IN  /\ Chk("C38", "duplicate-seq-rejected", d.res = "err" => ResClass(E.res) = "err")
          /\ Chk("C05", "delivery-result", ResClass(E.res) = d.res)
-         /\ Chk("C06", "error-leaves-applied", ResClass(E.res) = "err" => S(E.obs.applied) = applied[r])
-         /\ Chk("C06", "error-leaves-queue", ResClass(E.res) = "err" => S(E.obs.queued) = queue[r])
+         \* C06: a failing call leaves the document as it was when the call was made
+         /\ Chk("C06", "error-leaves-applied", ResClass(E.res) = "err" => S(E.obs.applied) = d.preA)
+         /\ Chk("C06", "error-leaves-queue", ResClass(E.res) = "err" => S(E.obs.queued) = d.preQ)
+         \* ... and even the named deviation (KNOWN_FINDINGS: the rejected actor's queued branch is
+         \* pruned) touches nothing else
+         /\ Chk("C06", "error-prunes-at-most-the-rejected-actors-branch",
+                ResClass(E.res) = "err" => S(E.obs.queued) = d.queue)
          /\ ObsOK(r, d.applied, d.queue, chg)
          /\ Adopt(r)
          /\ UNCHANGED <<chg, actor, digests>>
@@ -127,6 +136,10 @@ Merge ==
          d == DeliverResult(chg, applied[r], queue[r], E.added)
      IN  /\ Chk("C10", "changes-added-set", S(E.added) = applied[s] \ applied[r])
          /\ Chk("C05", "delivery-result", ResClass(E.res) = d.res)
+         /\ Chk("C06", "error-leaves-applied", ResClass(E.res) = "err" => S(E.obs.applied) = applied[r])
+         /\ Chk("C06", "error-leaves-queue", ResClass(E.res) = "err" => S(E.obs.queued) = queue[r])
+         /\ Chk("C06", "error-prunes-at-most-the-rejected-actors-branch",
+                ResClass(E.res) = "err" => S(E.obs.queued) = d.queue)
          /\ ObsOK(r, d.applied, d.queue, chg)
          /\ Adopt(r)
          /\ UNCHANGED <<chg, actor, digests>>
@@ -162,6 +175,7 @@ SetActor ==
 SaveLoad ==
   /\ IsEv("saveload")
   /\ Chk("C11", "save-loads", E.res = "ok")
+  /\ Chk("C06", "document-still-saves-and-loads", E.res = "ok")
   /\ IF E.res = "ok"
      THEN /\ ObsOK(E.r, applied[E.r], IF E.retain THEN queue[E.r] ELSE {}, chg)
           /\ Chk("C11", "resave-identical", E.digest = E.redigest)
@@ -201,9 +215,23 @@ ChgDef ==
   /\ digests' = (E.def.hash :> E.def.digest) @@ digests
   /\ UNCHANGED <<applied, queue, actor>>
 
+(* C28: a rolled back transaction leaves no trace *)
+Rollback ==
+  /\ IsEv("rollback")
+  /\ Chk("C28", "rollback-restores-heads-changes-queue", 
+         E.before.heads = E.after.heads /\ E.before.applied = E.after.applied /\ E.before.queued = E.after.queued
+         /\ E.before.missing = E.after.missing /\ E.before.actor = E.after.actor)
+  /\ Chk("C28", "rollback-restores-state", E.before.vd = E.after.vd)
+  /\ Chk("C28", "rollback-restores-saved-bytes", E.before.sd = E.after.sd)
+  /\ Chk("C28", "next-change-is-byte-identical", E.next_a = E.next_c)
+  /\ (E.front # "auto") => ObsOK(E.r, applied[E.r],
+                                  PruneBranch(chg, queue[E.r], actor[E.r], ActorSeq(chg, applied[E.r], actor[E.r]) + 1), chg)
+  /\ IF E.front # "auto" THEN Adopt(E.r) ELSE UNCHANGED <<applied, queue>>
+  /\ UNCHANGED <<chg, actor, digests>>
+
 (* events of other layers (historical reads, storage, sync, ...) are not this layer's business *)
 Handled == {"reset", "newrep", "commit", "deliver", "merge", "fork", "forkat", "forkat_err", "setactor",
-            "saveload", "missing", "getchanges", "chgdef"}
+            "saveload", "missing", "getchanges", "chgdef", "rollback"}
 Skip ==
   /\ l <= Len(Rec) /\ E.ev \notin Handled /\ l' = l + 1
   /\ UNCHANGED <<chg, applied, queue, actor, digests>>
@@ -211,7 +239,7 @@ Skip ==
 Init == l = 1 /\ chg = <<>> /\ applied = <<>> /\ queue = <<>> /\ actor = <<>> /\ digests = <<>>
 
 Next == Reset \/ NewRep \/ Commit \/ Deliver \/ Merge \/ Fork \/ ForkAt \/ ForkAtErr
-        \/ SetActor \/ SaveLoad \/ MissingProbe \/ GetChanges \/ ChgDef \/ Skip
+        \/ SetActor \/ SaveLoad \/ MissingProbe \/ GetChanges \/ ChgDef \/ Skip \/ Rollback
 
 Spec == Init /\ [][Next]_vars
 
